@@ -457,7 +457,7 @@ def line_accumulator(rep, f):
                 if ok:
                     continue
                 wit = None
-                for av in range(1, 41):
+                for av in range(1, 41 if rep.tier == "quick" else 121):
                     for bv in ([0] if cname == "b == 0" else range(1, av + 1)):
                         for k in range(first, first + av):
                             s = offset(k, N, D, av, bv)
@@ -470,7 +470,7 @@ def line_accumulator(rep, f):
                             break
                     if wit:
                         break
-                cd[oname] = {"witness": wit} if wit else "not proved, no witness up to a = 40"
+                cd[oname] = {"witness": wit} if wit else "not proved, no witness up to a = %d" % (40 if rep.tier == "quick" else 120)
                 bad.append((cname, oname, wit))
         names = ["bounding box", "connected to the end point", "one pixel above the ideal segment", "one pixel below the ideal segment"]
         for nm in names:
